@@ -97,8 +97,12 @@ impl ReplicationFetcher {
         for (addr, record_type) in incoming_keys {
             let key = addr.to_record_key();
 
-            // Skip if locally stored or already pending fetch
-            if locally_stored_keys.contains_key(&key)
+            // Skip if locally stored (the very same version of it: a held record whose content hash
+            // differs from the advertised one is a diverged copy that has to be pulled in and merged)
+            // or already pending fetch
+            if locally_stored_keys
+                .get(&key)
+                .is_some_and(|(_addr, local_type)| *local_type == record_type)
                 || self
                     .to_be_fetched
                     .contains_key(&(key.clone(), record_type.clone(), holder))
